@@ -207,3 +207,10 @@ def write_then_close(stream, b):
         rt.emit("write-failed")
     stream.close()
     return failed
+
+
+def write_two_pieces(stream, b1, b2):
+    """a caller (or a BufferedWriter with a small buffer) hands the payload over in two pieces"""
+    r1 = stream.write(b1)
+    r2 = stream.write(b2)
+    return (r1, r2)
